@@ -36,7 +36,7 @@ ASSUMPTIONS = [
 SHARDS = {"quick": 16, "thorough": 16}
 TIMEOUT = {"quick": 900, "thorough": 7200}
 MIN_CASES = {"quick": 20000, "thorough": 70000}
-REQUIRED_COUNTERS = ["ble_requests_reassembled", "ble_encrypted_requests", "ble_responses_reassembled", "ble_bad_fragments_rejected", "coap_batches_decoded", "coap_items_attributed", "coap_request_batches"]
+REQUIRED_COUNTERS = ["ble_requests_reassembled", "ble_encrypted_requests", "ble_responses_reassembled", "ble_bad_fragments_rejected", "coap_batches_decoded", "coap_items_attributed", "coap_request_batches", "coap_long_sessions"]
 
 
 def nonce(counter: int) -> bytes:
@@ -342,6 +342,46 @@ def coap_requests(ctx, n, seed) -> None:
     ctx.count("coap_request_batches")
 
 
+async def coap_long_session(ctx, k: int) -> None:
+    """ONE CoAP session, hundreds of batches through the real post_all (well beyond 255 items in total, whatever numbering
+    the batches use on the wire): the accessory echoes each item's transaction id and answers every item OK, so every
+    requested characteristic must come back with its value, never as a per-item error."""
+    from aiohomekit.characteristic_cache import CharacteristicCacheMemory
+    from aiohomekit.controller.coap.controller import CoAPController
+    from aiohomekit.controller.coap.pairing import CoAPPairing
+
+    from vf import sim_coap
+
+    rng = ctx.grng("C17.coap-session", k)
+    acc = sim_coap.CoapAccessory(rng)
+    fac = sim_coap.ContextFactory(acc).install()
+    replay = {"t": "coap-session", "k": k}
+    ctx.case("coap-session", k, sample={"transport": "coap", "part": "long session", "batches": 140}, kind="coap-session")
+    try:
+        controller = CoAPController(char_cache=CharacteristicCacheMemory(), zeroconf_instance=None)
+        pairing = CoAPPairing(controller, acc.pairing_data())
+        await asyncio.wait_for(pairing.list_accessories_and_characteristics(), 60)
+        readable = [10, 11, 13, 14, 3]
+        total = 0
+        for b in range(140):
+            iids = rng.sample(readable, rng.randint(1, 5))
+            ids = [(1, i) for i in iids]
+            try:
+                res = await asyncio.wait_for(pairing.get_characteristics(ids), 60)
+            except Exception as ex:  # noqa: BLE001
+                ctx.violation(f"coap-session-read-raises-{type(ex).__name__}", f"batch {b} after {total} items: {ex!r}", replay)
+                return
+            total += len(ids)
+            bad = [(i, res.get((1, i))) for i in iids if (1, i) not in res or "status" in res[(1, i)]]
+            if bad:
+                ctx.violation("coap-item-result-wrong-or-shifted", f"long session: batch {b} ({len(ids)} items, {total} items so far in this session) - the accessory answered every item OK, the caller got {bad[:3]!r}", replay)
+                return
+            ctx.count("coap_items_attributed", len(ids))
+        ctx.count("coap_long_sessions")
+    finally:
+        fac.remove()
+
+
 def coap_part(ctx) -> None:
     idx = 0
     for n in range(1, 5):
@@ -375,6 +415,9 @@ def coap_part(ctx) -> None:
 def run(ctx) -> None:
     async def main():
         await ble_part(ctx)
+        for k in range(ctx.pick(2, 16)):
+            if ctx.mine(k):
+                await coap_long_session(ctx, k)
 
     asyncio.run(main())
     coap_part(ctx)
@@ -387,6 +430,8 @@ def replay(ctx, d) -> None:
     elif d["t"] == "coap":
         ctx.case("replay")
         coap_batch(ctx, tuple(d["outcomes"]), d["blens"], d["seed"])
+    elif d["t"] == "coap-session":
+        asyncio.run(coap_long_session(ctx, d["k"]))
     else:
         ctx.case("replay")
         coap_requests(ctx, d["n"], d["seed"])
